@@ -12,9 +12,9 @@ import (
 
 func init() {
 	register(&Property{
-		ID:        "C07",
-		Roots:     []string{"overlord/state", "overlord", "overlord/hookstate", "overlord/snapstate", "overlord/ifacestate", "overlord/devicestate"},
-		Technique: "loop-latch gating of the runner's blocked-predicate loop and of each of the four exclusion predicates; who-may-call of AddBlocked/SetBlocked and of the tomb map; registration-table check of the interface task kinds",
+		ID:          "C07",
+		Roots:       []string{"overlord/state", "overlord", "overlord/hookstate", "overlord/snapstate", "overlord/ifacestate", "overlord/devicestate"},
+		Technique:   "loop-latch gating of the runner's blocked-predicate loop and of each of the four exclusion predicates; who-may-call of AddBlocked/SetBlocked and of the tomb map; registration-table check of the interface task kinds",
 		Explanation: "Structural necessary conditions for 'serialized task kinds never run concurrently': (R1) Ensure's `running` list starts from every tomb, is the list handed to each predicate and is extended with every task it starts; tombs are registered before the goroutine starts (C02-R5) and deleted only in the completion closures after r.mu is taken; (R2) each of the four exclusion predicates (prerequisites, run-hook per snap, interface tasks, update-gadget-assets), under its precondition on the candidate, answers non-true only after its loop over the running tasks advanced solely across tasks outside the exclusion class; (R3) every interface task kind except hotplug-seq-wait is registered through the closure that also records it in the exclusion set; (R4) the overlord creates one TaskRunner, hands it to the hook, snap, interface and device managers, and each registers its predicate with AddBlocked exactly once; (R5) nothing calls SetBlocked (which would replace all predicates).",
 		NotDecided:  "that hook-setup's snap name is the right exclusion key for every hook; exclusion across different runner instances (there is one).",
 		Assumptions: []string{"blocked predicates are pure (they do not start tasks themselves)"},
@@ -60,7 +60,9 @@ func runC07(c *Ctx) {
 				}
 				return false
 			},
-			CutEdge:  func(b *ssa.BasicBlock, s int) bool { return AtomEdges(Cmp("t==nil", taskOf, token.EQL, isNilVal))(b, s) || b.Succs[s] == rl.Done },
+			CutEdge: func(b *ssa.BasicBlock, s int) bool {
+				return AtomEdges(Cmp("t==nil", taskOf, token.EQL, isNilVal))(b, s) || b.Succs[s] == rl.Done
+			},
 			SinkEdge: func(b *ssa.BasicBlock, s int) bool { return b.Succs[s] == rl.Header }}
 		r := q.Run()
 		c.Check(!r.Found, "overlord/state.(*TaskRunner).Ensure#running-from-tombs", rl.Body.Instrs[0].Pos(), "every tomb whose task exists is put on the running list", "a running task (tomb) can be left out of the list the predicates see: "+P.PathString(r.Path))
